@@ -44,7 +44,7 @@ META = {
     'assumptions': ['transport.write preserves order'],
     'decided': ['D1 conformance of the bus path', 'D2 unique names; a '
                 'registered connection is unregistered on loss',
-                'D3 true sender', 'D4 unicast is unicast',
+                'D3 true sender; the owner table routing reads is the one RequestName reports (C13.D2 rows, C13.D4 queue integrity as premises)', 'D4 unicast is unicast',
                 'D5 match-rule lifecycle (incl. RemoveMatch accounting when one '
                 'text was added several times)', 'D6 stub/skeleton agreement',
                 'D7 no deferral on the forwarding path'],
@@ -72,6 +72,7 @@ def run(ctx):
     per_instance_registries(ctx, 'C14.D2', ('bus',),
                             'connections of the bus share one table')
     registered_implies_unregistered(ctx)
+    owner_table_premise(ctx)
     ctx.floor('C14.D1', 20)
     ctx.floor('C14.D2', 3)
     ctx.floor('C14.D3', 2)
@@ -79,6 +80,37 @@ def run(ctx):
     ctx.floor('C14.D5', 3)
     ctx.floor('C14.D6', 8)
     ctx.floor('C14.D7', 3)
+
+
+def owner_table_premise(ctx):
+    """Routing reads the owner of a name from the head of its queue: "the
+    connection owning the destination name" is the head only if every
+    RequestName leaves the queue in the state it reports (the table rows of
+    C13.D2) and never holds a connection twice / removes the wrong entry
+    (C13.D4).  Those clauses are re-reported here as C14.D3 premises."""
+    from . import c13
+
+    class _Sub:
+        prog = ctx.prog
+        tier = ctx.tier
+        extra = {}
+
+        def ob(self, rule, where, slot, ok, msg, detail=None,
+               nontrivial=True, loc=None):
+            if rule in ('C13.D2', 'C13.D4') and (
+                    slot.startswith('row:') or slot.startswith('insert-') or
+                    slot.startswith('old-entry-')):
+                ctx.ob('C14.D3', where, 'owner-table:' + slot, ok,
+                       '[the routing table must hold the owner the clients '
+                       'were told about] ' + msg, detail, nontrivial, loc)
+            return ok
+
+        def floor(self, *a):
+            pass
+
+        def advisory(self, *a):
+            pass
+    c13.request_table(_Sub())
 
 
 def unique_names(ctx):
